@@ -5,7 +5,7 @@ CONSTANTS
   FactorSel = {1}
   PriorSel = {1,2}
   ModeSel = {1,2,3}
-  KSel = {2}
+  KSel = {4}
   MaxLevel = 5
   PriorTable = "persist_user_only"
   ViewSpace = "prior_mode"
